@@ -375,7 +375,6 @@ func c07(c *evid.Ctx) {
 			c.Sample(map[string]any{"round": round, "concurrent_queries": M, "servers": ns, "example_query": map[string]any{"dest": qs[0].dest.String(), "t": fmt.Sprintf("%q", qs[0].t), "method": qs[0].method, "answered": qs[0].answer}})
 		}
 	}
-	if c.Counter("queries completed by their own reply") == 0 || c.Counter("unanswered queries that stayed open until cancelled") == 0 {
-		c.Inconclusive("a verdict class was never observed")
-	}
+	c.Floor("queries completed by their own reply", 1)
+	c.Floor("unanswered queries that stayed open until cancelled", 1)
 }
